@@ -97,6 +97,19 @@ def selectorEval {L X Y} [DecidableEq L] (labels : List L) (xs : List X) (sel : 
   let uniq := (labels.eraseDups).filter (fun l => !isEmpty l)
   uniq.foldl (selectorStep labels xs sel undef) (labels.map (fun _ => undef))
 
+/-- the same loop with the points of a region picked by an arbitrary "same label" test instead of equality (what a tolerance
+    comparison such as `np.isclose(labels, rid)` would be) -/
+def selectorEvalBy {L X Y} [DecidableEq L] (same : L → L → Bool) (labels : List L) (xs : List X) (sel : L → Option (X → Y))
+    (isEmpty : L → Bool) (undef : Y) : List Y :=
+  let uniq := (labels.eraseDups).filter (fun l => !isEmpty l)
+  uniq.foldl (fun out rid =>
+    let ind := labels.map (fun l => same l rid)
+    let inputs := gather xs ind
+    let result := match sel rid with
+      | some g => inputs.map g
+      | none => inputs.map (fun _ => undef)
+    scatter out ind result) (labels.map (fun _ => undef))
+
 /-- `set_input(rid)`: the transform registered for one region, or an error for an unknown one -/
 def setInput {L T} [DecidableEq L] (table : List (L × T)) (rid : L) : Except Err T :=
   match table.find? (fun kv => kv.1 = rid) with
